@@ -49,6 +49,14 @@ THEOREMS = [
     'Nb.C01.codec_by_suffix',
     'Nb.C01.codec_same_for_read_and_write',
     'Nb.C01.table_codecs_canonical',
+    'Nb.C01.dtype_override_plan',
+    'Nb.C01.dtype_override_roundtrip',
+    'Nb.C01.dtype_override_native_order_counterexample',
+    'Nb.C01.resave_in_place',
+    'Nb.C01.resave_lazy_counterexample',
+    'Nb.C01.mgh_resave_in_place',
+    'Nb.C01.float_out_never_scaled',
+    'Nb.C01.same_dtype_exact',
 ]
 ASSUMPTIONS = [
     'hand-written Lean model (Model/C01.lean) of the scaling-free path: ArrayWriter/SlopeArrayWriter.scaling_needed, '
@@ -243,6 +251,8 @@ def base_array(in_name, shape, vals):
     n = int(np.prod(shape, dtype=object)) if len(shape) else 1
     vals = expand_vals(vals, {'f16': 'f8', 'c32': 'c16'}.get(in_name, in_name), n)
     if kind in 'iu':
+        if n > 4096 and all(-2 ** 63 <= v < 2 ** 63 for v in (min(vals), max(vals))):
+            return np.array(vals, dtype=np.int64).astype(np_dtype(in_name)).reshape(shape)
         a = np.array([int(v) for v in vals], dtype=object).astype(np_dtype(in_name)) if n else np.zeros(0, np_dtype(in_name))
         return a.reshape(shape)
     if in_name in ('f16', 'c32'):
@@ -339,10 +349,12 @@ def patterns(a, name):
         return []
     nat = np.ascontiguousarray(a.astype(np_dtype(name)))
     u = nat.reshape(-1).view('u%d' % cw).reshape(-1, k)
-    return [[int(c) for c in row] for row in u]
+    return u.tolist()
 
 
 def fmt_elems(pats):
+    if pats and len(pats[0]) == 1:
+        return ','.join([str(el[0]) for el in pats])
     return ','.join(':'.join(str(c) for c in el) for el in pats) if pats else '-'
 
 
@@ -374,8 +386,40 @@ def needs_no_scaling(in_name, out_name, vals):
 
 # ------------------------------------------------------------------ cases
 
+SPELLS = ['dtype', 'swapped', 'le', 'be', 'str', 'type']
+HDR_SRCS = ['ctor', 'swap', 'loaded']
+
+
+def spell_dtype(name, spell):
+    """(object handed to `dtype=`, byte-order token of the protocol line)"""
+    dt = np_dtype(name)
+    if spell in ('str', 'type') and dt.kind == 'V':
+        spell = 'dtype'
+    if spell == 'dtype':
+        return dt, '='
+    if spell == 'swapped':
+        return dt.newbyteorder('S'), ('>' if NATIVE == '<' else '<')
+    if spell == 'le':
+        return dt.newbyteorder('<'), '<'
+    if spell == 'be':
+        return dt.newbyteorder('>'), '>'
+    if spell == 'str':
+        return dt.name, '='
+    if spell == 'type':
+        return dt.type, '='
+    raise ValueError(spell)
+
+
 def mk_rt(cls, endian, out, offset, shape, in_name, layout, vals, route, comp, stream='rt', expect=None,
-          history=None):
+          history=None, opts=None):
+    """opts (all optional):
+      ovr     {'hdr0': header dtype before the save, 'spell': how `out` is handed to `dtype=`}: the on-disk dtype
+              `out` is NOT set in the header but passed as the `dtype=` argument of the save call
+      hdr_src how the header got its byte order: 'ctor' (endianness=), 'swap' (as_byteswapped), 'loaded' (header of
+              an image loaded from a file of that byte order)
+      saver   'method' (img.to_filename / to_file_map / to_bytes / to_stream) | 'nibsave' (nib.save, filename route)
+      resave  {'mmap', 'load', 'lpath', 'spath', 'via', 'touch'}: the image is saved, LOADED (in a child process,
+              cwd = the file's directory) and saved over its own file; the final file is the one under test"""
     shape = tuple(int(s) for s in shape)
     data = {'op': 'rt', 'cls': cls, 'endian': endian, 'out': out, 'offset': offset, 'shape': list(shape),
             'in': in_name, 'layout': layout, 'vals': vals, 'route': route, 'comp': comp, 'stream': stream}
@@ -383,18 +427,31 @@ def mk_rt(cls, endian, out, offset, shape, in_name, layout, vals, route, comp, s
         data['expect'] = expect
     if history:
         data['history'] = history      # prior saves of the SAME image object: [{'out': dtype, 'route': route}]
+    opts = {k: v for k, v in (opts or {}).items() if v not in (None, 'ctor', 'method')}
+    data.update(opts)
     ik, _, _ = comp_layout(in_name)
     okd, _, _ = comp_layout(out)
     off = '_' if offset is None else str(offset)
+    n = int(np.prod(shape, dtype=object)) if len(shape) else 1
+    xv = expand_vals(vals, {'f16': 'f8', 'c32': 'c16'}.get(in_name, in_name), n)
+    if opts.get('ovr'):
+        head = f'C01 rtd {cls} {endian} {opts["ovr"]["hdr0"]} {out} {spell_dtype(out, opts["ovr"]["spell"])[1]}'
+    elif opts.get('resave'):
+        head = f'C01 rs {cls} {endian} {out}'
+    else:
+        head = f'C01 rt {cls} {endian} {out}'
     if ik in 'iu' and okd in 'iu':
-        line = f'C01 rt {cls} {endian} {out} {off} {fmt_shape(shape)} {in_name} ' + (','.join(str(int(v)) for v in vals) if vals else '-')
+        line = f'{head} {off} {fmt_shape(shape)} {in_name} ' + (','.join(str(int(v)) for v in xv) if xv else '-')
     else:
         with np.errstate(all='ignore'):
             cast = base_array(in_name, shape, vals).astype(np_dtype(out))      # NumPy cast = model parameter
-        line = f'C01 rt {cls} {endian} {out} {off} {fmt_shape(shape)} raw {fmt_elems(patterns(cast, out))}'
-    n = int(np.prod(shape, dtype=object)) if len(shape) else 1
-    key = None if n < 2 else (cls, route, comp, endian, in_name, out, shape, layout, offset, repr(vals), repr(history))
+        line = f'{head} {off} {fmt_shape(shape)} raw {fmt_elems(patterns(cast, out))}'
+    key = None if n < 2 else (cls, route, comp, endian, in_name, out, shape, layout, offset, repr(vals), repr(history),
+                              repr(sorted(opts.items())))
     return Case(line, data, key, stream)
+
+
+OPT_KEYS = ('ovr', 'hdr_src', 'saver', 'resave')
 
 
 def mk_sn(writer, in_name, out, vals):
@@ -442,7 +499,7 @@ def case_from_data(d):
     if op == 'rt':
         return mk_rt(d['cls'], d['endian'], d['out'], d.get('offset'), d['shape'], d['in'], d.get('layout', 'C'),
                      d['vals'], d.get('route', 'file_map'), d.get('comp', ''), d.get('stream', 'rt'), d.get('expect'),
-                     d.get('history'))
+                     d.get('history'), {k: d.get(k) for k in OPT_KEYS})
     if op == 'sn':
         return mk_sn(d['writer'], d['in'], d['out'], d['vals'])
     if op == 'codec':
@@ -478,18 +535,18 @@ def _wrap_stream(bio, comp, mode):
     return bio
 
 
-def _prior_save(img, c, route):
+def _prior_save(img, c, route, **kw):
     if route == 'bytes' and hasattr(img, 'to_bytes'):
-        img.to_bytes()
+        img.to_bytes(**kw)
     elif route == 'filename':
         with tempfile.TemporaryDirectory(prefix='c01_') as tmp:
             ext = '.mgh' if c.__name__ == 'MGHImage' else c.files_types[0][1]
-            img.to_filename(os.path.join(tmp, 'prior' + ext))
+            img.to_filename(os.path.join(tmp, 'prior' + ext), **kw)
     else:
         fm = c.make_file_map()
         for k in fm:
             fm[k].fileobj = io.BytesIO()
-        img.to_file_map(fm)
+        img.to_file_map(fm, **kw)
 
 
 def _fdata(loaded, out_name):
@@ -502,40 +559,221 @@ def _fdata(loaded, out_name):
         return 'get_fdata raised ' + repr(e)[:100]
 
 
+def dtype_name(dt):
+    dt = np.dtype(dt)
+    for nm in ALL_DT:
+        if np_dtype(nm) == dt.newbyteorder('='):
+            return nm
+    return str(dt)
+
+
+def make_header(c, d):
+    """the header the image is built with: byte order d['endian'], obtained the way d['hdr_src'] says"""
+    if d['cls'] == 'MGHImage':
+        return c.header_class()
+    src = d.get('hdr_src', 'ctor')
+    e = d['endian']
+    if src == 'swap':
+        hdr = c.header_class(endianness='<' if e == '>' else '>').as_byteswapped(e)
+    elif src == 'loaded':
+        h0 = c.header_class(endianness=e)
+        h0.set_data_dtype(np.uint8)
+        tmpl = c(np.zeros((2, 1, 2), np.uint8), np.eye(4), h0)
+        fm = c.make_file_map()
+        for k in fm:
+            fm[k].fileobj = io.BytesIO()
+        tmpl.to_file_map(fm)
+        hdr = c.from_file_map(fm).header
+    else:
+        hdr = c.header_class(endianness=e)
+    assert hdr.endianness == e
+    return hdr
+
+
+def _in_child(fn):
+    """run fn() in a forked child (a SIGBUS on a truncated memory map must not take the harness down);
+    None when the child finished normally, else an ERR line"""
+    r, w = os.pipe()
+    pid = os.fork()
+    if pid == 0:
+        code = 0
+        try:
+            os.close(r)
+            fn()
+        except BaseException as e:                 # noqa: BLE001
+            try:
+                os.write(w, errname(e).encode()[:200])
+            except Exception:
+                pass
+            code = 3
+        finally:
+            os._exit(code)
+    os.close(w)
+    msg = b''
+    while True:
+        b = os.read(r, 4096)
+        if not b:
+            break
+        msg += b
+    os.close(r)
+    _, st = os.waitpid(pid, 0)
+    if os.WIFSIGNALED(st):
+        return 'ERR:signal%d' % os.WTERMSIG(st)
+    if os.WEXITSTATUS(st) != 0:
+        return msg.decode(errors='replace') or 'ERR:child'
+    return None
+
+
+class ChildFailed(Exception):
+    pass
+
+
+RS_PATHS = ['abs', 'rel', 'dot', 'dotdot', 'pathlib', 'symlink', 'dslash']
+
+
+def _spell_path(work, base, how):
+    """a spelling of the path of work/base; the child's cwd is `work`"""
+    import pathlib
+    if how == 'abs':
+        return os.path.join(work, base)
+    if how == 'rel':
+        return base
+    if how == 'dot':
+        return './' + base
+    if how == 'dotdot':
+        return 'sub/../' + base
+    if how == 'pathlib':
+        return pathlib.Path(base)
+    if how == 'symlink':
+        return 'link_' + base
+    if how == 'dslash':
+        return work + '//' + base
+    raise ValueError(how)
+
+
+def _resave(c, d, img, tmp):
+    """save `img`; in a child process (cwd = the directory of the file) load it and save the loaded image over its
+    own file; returns the absolute file name"""
+    import nibabel as nib
+    rs = d['resave']
+    work = os.path.join(os.path.realpath(tmp), 'work')
+    os.makedirs(os.path.join(work, 'sub'))
+    comp = d['comp']
+    if d['cls'] == 'MGHImage':
+        base = 'vol' + ('.mgz' if comp == '.mgz' else '.mgh')
+    else:
+        base = 'vol' + c.files_types[0][1] + comp
+    fname = os.path.join(work, base)
+    img.to_filename(fname)
+    for ftype, ext in c.files_types:                       # symlinks for every file of the image
+        b = 'vol' + ext + ('' if d['cls'] == 'MGHImage' else comp)
+        if d['cls'] == 'MGHImage':
+            b = base
+        if os.path.exists(os.path.join(work, b)):
+            os.symlink(b, os.path.join(work, 'link_' + b))
+
+    def work_fn():
+        os.chdir(work)
+        lp = _spell_path(work, base, rs['lpath'])
+        mm = rs['mmap']
+        how = rs['load']
+        keep = []
+        if how == 'nib.load':
+            li = nib.load(lp, mmap=mm)
+        elif how == 'fileobj':
+            fm = c.filespec_to_file_map(lp)
+            for k in fm:
+                f = open(fm[k].filename, 'rb')
+                keep.append(f)
+                fm[k] = nib.fileholders.FileHolder(fileobj=f)
+            li = c.from_file_map(fm, mmap=mm)
+        else:
+            li = c.from_filename(lp, mmap=mm)
+        if rs.get('touch') == 'asarray':
+            np.asanyarray(li.dataobj)
+        elif rs.get('touch') == 'fdata':
+            li.get_fdata()
+        via = rs.get('via', 'same')
+        if via == 'new':
+            li = c(li.dataobj, li.affine, li.header)
+        elif via == 'arr':
+            li = c(np.asanyarray(li.dataobj), li.affine, li.header)
+        sp = rs['spath']
+        if sp == 'own' and via == 'same' and how != 'fileobj':
+            li.to_file_map()
+        elif sp == 'getname' and via == 'same' and how != 'fileobj':
+            li.to_filename(li.get_filename())
+        else:
+            target = _spell_path(work, base, rs['lpath'] if sp in ('same', 'own', 'getname') else sp)
+            if rs.get('saver') == 'nibsave':
+                nib.save(li, target)
+            else:
+                li.to_filename(target)
+        for f in keep:
+            f.close()
+    err = _in_child(work_fn)
+    if err:
+        raise ChildFailed(err)
+    return fname
+
+
 def save_load(d, arr):
     """run the real code: returns (decompressed data-file bytes, loaded image, loaded array)"""
     import nibabel as nib
     c = klass(d['cls'])
     out_dt = np_dtype(d['out'])
-    if d['cls'] == 'MGHImage':
-        hdr = c.header_class()
+    hdr = make_header(c, d)
+    ovr = d.get('ovr')
+    kw = {}
+    if ovr:
+        hdr.set_data_dtype(np_dtype(ovr['hdr0']))
+        kw['dtype'] = spell_dtype(d['out'], ovr['spell'])[0]
     else:
-        hdr = c.header_class(endianness=d['endian'])
-    hdr.set_data_dtype(out_dt)
+        hdr.set_data_dtype(out_dt)
     img = c(arr, np.eye(4), hdr)
     if d.get('offset') is not None:
         img.header.set_data_offset(d['offset'])
     # history: the same image object was saved before, with another on-disk dtype (possibly one that needs
-    # rescaling, possibly refused), to another destination; those saves are outside the property, the save
-    # below is the one under test
+    # rescaling, possibly refused; set in the header or handed over as `dtype=`), to another destination; those
+    # saves are outside the property, the save below is the one under test
     for h in d.get('history') or []:
         try:
-            img.set_data_dtype(np_dtype(h['out']))
-            _prior_save(img, c, h.get('route', 'file_map'))
+            if h.get('arg') and d['cls'] != 'MGHImage':
+                _prior_save(img, c, h.get('route', 'file_map'), dtype=np_dtype(h['out']))
+            else:
+                img.set_data_dtype(np_dtype(h['out']))
+                _prior_save(img, c, h.get('route', 'file_map'))
         except Exception:
             pass
     if d.get('history'):
-        img.set_data_dtype(out_dt)
+        img.set_data_dtype(np_dtype(ovr['hdr0']) if ovr else out_dt)
     route, comp = d['route'], d['comp']
+    nibsave = d.get('saver') == 'nibsave'
+
+    def finish(loaded):
+        loaded._c01_after = dtype_name(img.header.get_data_dtype()) + (
+            '>' if d['cls'] == 'MGHImage' else img.header.endianness)
+        return loaded
+    if d.get('resave'):
+        with tempfile.TemporaryDirectory(prefix='c01_') as tmp:
+            fname = _resave(c, d, img, tmp)
+            raw = _decompress(fname, comp)
+            loaded = finish(c.from_filename(fname))
+            got = np.array(np.asanyarray(loaded.dataobj))
+            loaded._c01_fdata = _fdata(loaded, d['out'])
+        return raw, loaded, got, None
     if route == 'filename':
         with tempfile.TemporaryDirectory(prefix='c01_') as tmp:
             if d['cls'] == 'MGHImage':
                 fname = os.path.join(tmp, 'vol' + ('.mgz' if comp == '.mgz' else '.mgh'))
             else:
                 fname = os.path.join(tmp, 'vol' + c.files_types[0][1] + comp)
-            img.to_filename(fname)
+            if nibsave:
+                nib.save(img, fname, **kw)
+            else:
+                img.to_filename(fname, **kw)
             raw = _decompress(fname, comp)
-            loaded = c.from_filename(fname)
+            loaded = finish(c.from_filename(fname))
             got = np.array(np.asanyarray(loaded.dataobj))
             loaded._c01_fdata = _fdata(loaded, d['out'])
             via_load = nib.load(fname) if d['cls'] in ('Nifti1Image', 'Nifti2Image', 'MGHImage') else None
@@ -546,23 +784,23 @@ def save_load(d, arr):
         fm = c.make_file_map()
         for k in fm:
             fm[k].fileobj = io.BytesIO()
-        img.to_file_map(fm)
+        img.to_file_map(fm, **kw)
         raw = fm['image'].fileobj.getvalue()
-        loaded = c.from_file_map(fm)
+        loaded = finish(c.from_file_map(fm))
         return raw, loaded, np.array(np.asanyarray(loaded.dataobj)), None
     if route == 'stream':
         bio = io.BytesIO()
         w = _wrap_stream(bio, comp, 'wb')
-        img.to_stream(w)
+        img.to_stream(w, **kw)
         if w is not bio:
             w.close()
         raw = _decompress(bio.getvalue(), comp)
         r = _wrap_stream(io.BytesIO(bio.getvalue()), comp, 'rb')
-        loaded = c.from_stream(r)
+        loaded = finish(c.from_stream(r))
         return raw, loaded, np.array(np.asanyarray(loaded.dataobj)), None
     if route == 'bytes':
-        raw = img.to_bytes()
-        loaded = c.from_bytes(raw)
+        raw = img.to_bytes(**kw)
+        loaded = finish(c.from_bytes(raw))
         return raw, loaded, np.array(np.asanyarray(loaded.dataobj)), None
     raise ValueError(route)
 
@@ -661,11 +899,14 @@ def impl(case):
     try:
         with np.errstate(all='ignore'):
             raw, loaded, got, alt = save_load(d, arr)
+    except ChildFailed as e:
+        case.extra['exc'] = 'child process: ' + str(e)
+        return str(e) if str(e).startswith('ERR') else 'ERR:child'
     except Exception as e:
         case.extra['exc'] = repr(e)[:300]
         return errname(e)
     fd = getattr(loaded, '_c01_fdata', None)
-    if fd is None and d['route'] != 'filename':
+    if fd is None and d['route'] != 'filename' and not d.get('resave'):
         fd = _fdata(loaded, d['out'])
     case.extra.update(raw=raw, got=got, alt=alt, fdata=fd, hdr_dtype=loaded.header.get_data_dtype(), img_shape=tuple(loaded.shape),
                       input_after=arr)
@@ -678,8 +919,9 @@ def impl(case):
         vals = 'DTYPE:' + str(got.dtype)
     else:
         vals = fmt_elems(patterns(got, d['out']))
+    after = f' after={loaded._c01_after}' if d.get('ovr') else ''
     return (f'ok flen={len(raw)} pad0={1 if not any(pad) else 0} data={raw[off:off + n].hex()} '
-            f'tail={max(0, len(raw) - off - n)} shape={[int(s) for s in got.shape]} vals={vals}').replace(', ', ',')
+            f'tail={max(0, len(raw) - off - n)} shape={[int(s) for s in got.shape]} vals={vals}').replace(', ', ',') + after
 
 
 # ------------------------------------------------------------------ oracle
@@ -742,7 +984,8 @@ def oracle(case, out):
         arr = base_array(d['in'], tuple(d['shape']), d['vals'])
     cell = f'{d["cls"]} route={d["route"]} comp={d["comp"] or "none"} endian={d["endian"]} {d["in"]}->{d["out"]} ' \
            f'shape={tuple(d["shape"])} layout={d["layout"]} offset={d.get("offset")}' + \
-           (f' after prior saves {d["history"]}' if d.get('history') else '')
+           (f' after prior saves {d["history"]}' if d.get('history') else '') + \
+           ''.join(f' {k}={d[k]}' for k in OPT_KEYS if d.get(k))
     if out.startswith('ERR'):
         return f'save/load raised {out} ({ex.get("exc", "")}) for an in-domain image: {cell}'
     out_dt = np_dtype(d['out'])
@@ -791,11 +1034,24 @@ def oracle(case, out):
     if any(raw[ci['hlen']:off]):
         return f'fill between header end {ci["hlen"]} and data offset {off} is not zero: {cell}'
     endian = '>' if d['cls'] == 'MGHImage' else d['endian']
-    dec = own_decode(region, endian, cw, k, want_shape)
     wp = patterns(want, d['out'])
-    for q, idx in enumerate(itertools.product(*[range(s) for s in want_shape])):
-        if dec[idx] != wp[q]:
-            return f'stored bytes at index {idx} decode to {dec[idx]}, expected {wp[q]} (= data.astype({d["out"]})): {cell}'
+    if n > 4096:
+        # long arrays: own ENcoder instead of the index->pattern dictionary (same independence, linear time):
+        # Fortran-order walk over the flat C positions, every component written out with int.to_bytes
+        bo = 'little' if endian == '<' else 'big'
+        forder = np.arange(n).reshape(want_shape).T.reshape(-1).tolist()
+        exp = b''.join(comp.to_bytes(cw, bo) for q in forder for comp in wp[q])
+        if exp != region:
+            j = next(i for i in range(len(exp)) if exp[i] != region[i]) // (cw * k)
+            idx = tuple(int(x) for x in np.unravel_index(forder[j], want_shape))
+            return (f'stored bytes of element number {j} of the data block (index {idx}) are '
+                    f'{region[j * cw * k:(j + 1) * cw * k].hex()}, expected {exp[j * cw * k:(j + 1) * cw * k].hex()} '
+                    f'(= data.astype({d["out"]})): {cell}')
+    else:
+        dec = own_decode(region, endian, cw, k, want_shape)
+        for q, idx in enumerate(itertools.product(*[range(s) for s in want_shape])):
+            if dec[idx] != wp[q]:
+                return f'stored bytes at index {idx} decode to {dec[idx]}, expected {wp[q]} (= data.astype({d["out"]})): {cell}'
     if ex['input_after'].tobytes() != arr.tobytes():
         return f'saving modified the input array: {cell}'
     return None
@@ -842,6 +1098,26 @@ def _shrink_candidates(case):
         nd = dict(d)
         nd.update(shape=list(nshape), vals=nvals, **kw)
         return case_from_data(nd)
+    for key in OPT_KEYS:                                   # drop one option dimension at a time
+        if d.get(key) and not (key == 'ovr'):
+            yield rebuild(shape, vals, **{key: None})
+    if d.get('resave'):
+        rs = d['resave']
+        for k2, plain in (('lpath', 'abs'), ('spath', 'same'), ('via', 'same'), ('touch', None), ('load', 'from_filename'),
+                          ('saver', None)):
+            if rs.get(k2, plain) != plain:
+                yield rebuild(shape, vals, resave=dict(rs, **{k2: plain}))
+    if d.get('ovr') and d['ovr']['spell'] != 'dtype':
+        yield rebuild(shape, vals, ovr=dict(d['ovr'], spell='dtype'))
+    if isinstance(vals, dict):                             # long arrays (compact value spec): shorten the long axes
+        for ax in range(len(shape)):
+            for nl in (shape[ax] // 2, shape[ax] - shape[ax] // 8, shape[ax] - 2, shape[ax] - 1):
+                if shape[ax] > 16 and 0 < nl < shape[ax]:
+                    yield rebuild(shape[:ax] + [nl] + shape[ax + 1:], vals)
+        for key, plain in (('layout', 'C'), ('route', 'file_map')):
+            if d[key] != plain:
+                yield rebuild(shape, vals, **({key: plain, 'comp': ''} if key == 'route' else {key: plain}))
+        return
     a = np.empty(len(vals), dtype=object)
     for i, v in enumerate(vals):
         a[i] = v
@@ -997,7 +1273,16 @@ def gen_rt(rng, cls, route, comp, stream='rt', zero=False):
     history = None
     if not zero and rng.random() < 0.3:
         history = [gen_prior(rng, cls) for _ in range(rng.choice([1, 1, 2]))]
-    return mk_rt(cls, endian, out, offset, shape, in_name, layout, vals, route, comp, stream, history=history)
+    opts = {}
+    if ci['layout'] != 'mgh':
+        # the on-disk dtype handed over as the `dtype=` argument of the save call instead of being set in the header
+        if rng.random() < 0.25:
+            opts['ovr'] = {'hdr0': rng.choice(ci['dtypes']), 'spell': rng.choice(SPELLS)}
+        if rng.random() < 0.3:
+            opts['hdr_src'] = rng.choice(HDR_SRCS)
+    if route == 'filename' and rng.random() < 0.25:
+        opts['saver'] = 'nibsave'
+    return mk_rt(cls, endian, out, offset, shape, in_name, layout, vals, route, comp, stream, history=history, opts=opts)
 
 
 def gen_prior(rng, cls):
@@ -1007,7 +1292,10 @@ def gen_prior(rng, cls):
     small = [t for t in ('u1', 'i2', 'i1', 'u2') if t in ci['dtypes']]
     out = rng.choice(small) if rng.random() < 0.6 else rng.choice(ci['dtypes'])
     routes = ['file_map', 'file_map', 'filename'] + (['bytes'] if ci['serial'] else [])
-    return {'out': out, 'route': rng.choice(routes)}
+    h = {'out': out, 'route': rng.choice(routes)}
+    if ci['layout'] != 'mgh' and rng.random() < 0.4:
+        h['arg'] = True                    # prior save used `dtype=` instead of set_data_dtype
+    return h
 
 
 NATIVE = '<' if np.little_endian else '>'
@@ -1083,6 +1371,157 @@ def history_stream(rng, tier):
     return out
 
 
+def dtypearg_stream(rng, tier):
+    """the `dtype=` argument of to_filename / to_file_map / to_stream / to_bytes / nib.save crossed with the header's
+    byte order, the way the header got it, and the way the dtype is spelled: class x {<,>} x hdr_src x spelling"""
+    out = []
+    info = class_info()
+    pairs = [('i4', 'i2'), ('f8', 'f4'), ('i2', 'f4'), ('u1', 'u1'), ('c16', 'c8'), ('i2', 'i4'), ('f4', 'f8'), ('u2', 'u2'),
+             ('rgb', 'rgb'), ('i8', 'i8'), ('f4', 'c8')]
+    j = 0
+    for cls in CLASS_NAMES:
+        ci = info[cls]
+        if ci['layout'] == 'mgh':
+            continue                        # MGHImage.to_file_map has no `dtype=`
+        routes = ['file_map', 'filename', 'filename'] + (['bytes', 'stream'] if ci['serial'] else [])
+        ok_pairs = [p for p in pairs if p[1] in ci['dtypes']]
+        for rep in range({'quick': 1, 'thorough': 4, 'search': 1}[tier]):
+            for endian in '<>':
+                for src in HDR_SRCS:
+                    for spell in SPELLS:
+                        j += 1
+                        in_name, o = ok_pairs[j % len(ok_pairs)]
+                        hdr0 = [t for t in ci['dtypes'] if t != o][(j // 3) % (len(ci['dtypes']) - 1)]
+                        shape = gen_shape(rng, 5)
+                        vals = gen_vals(rng, in_name, o, int(np.prod(shape)))
+                        route = routes[j % len(routes)]
+                        comp = '.gz' if (route in ('filename', 'stream') and j % 4 == 1) else ''
+                        opts = {'ovr': {'hdr0': hdr0, 'spell': spell}, 'hdr_src': src}
+                        if route == 'filename' and j % 2:
+                            opts['saver'] = 'nibsave'
+                        hist = [dict(gen_prior(rng, cls), arg=True)] if j % 5 == 0 else None
+                        out.append(mk_rt(cls, endian, o, None, shape, in_name, gen_layout(rng, len(shape)), vals, route,
+                                         comp, 'dtypearg', history=hist, opts=opts))
+    return out
+
+
+def resave_stream(rng, tier):
+    """an image LOADED from disk (memory-mapped or not) and saved over its own file, the path spelled in different
+    ways for loading and saving (the child process works in the file's directory)"""
+    out = []
+    info = class_info()
+    j = 0
+    for cls in CLASS_NAMES:
+        ci = info[cls]
+        comps = [''] * 3 + (['.mgz'] if cls == 'MGHImage' else ['.gz'])
+        for rep in range({'quick': 1, 'thorough': 6, 'search': 1}[tier]):
+            for lpath in RS_PATHS:
+                for mm in ((True, 'r') if tier == 'quick' else (True, False, 'c', 'r')):
+                    j += 1
+                    if tier == 'quick' and mm == 'r' and j % 3:
+                        continue
+                    comp = comps[rng.randrange(len(comps))]
+                    load = rng.choice(['nib.load', 'from_filename', 'from_filename', 'fileobj'])
+                    if load == 'fileobj' and comp:
+                        load = 'from_filename'
+                    if load == 'nib.load' and 'Analyze' in cls:
+                        # nib.load sniffs a plain Analyze pair as another class of the family; re-wrapping its
+                        # header in `cls` (via new/arr) converts it to a native-endian header: a different scenario
+                        load = 'from_filename'
+                    spath = rng.choice(['same', 'same', 'own', 'getname'] + RS_PATHS)
+                    o = rng.choice([t for t in ('i2', 'f4', 'u1', 'i4', 'f8', 'c8', 'rgb') if t in ci['dtypes']])
+                    rs = {'mmap': mm, 'load': load, 'lpath': lpath, 'spath': spath,
+                          'via': rng.choice(['same', 'same', 'new', 'arr']),
+                          'touch': rng.choice([None, None, 'asarray', 'fdata' if comp_layout(o)[0] in 'iuf' else None])}
+                    if rng.random() < 0.25:
+                        rs['saver'] = 'nibsave'
+
+                    if j % 4 == 0:             # more than one page of data
+                        shape = rng.choice([(40, 30, 3), (25, 20, 2, 3), (3000,), (64, 33)])
+                        if cls != 'MGHImage' and len(shape) == 1:
+                            shape = (3000, 1)
+                    else:
+                        shape = gen_shape(rng, min(ci['max_rank'], 5))
+                    vals = gen_vals(rng, o, o, int(np.prod(shape)))
+                    endian = '>' if ci['big_only'] else rng.choice('<>')
+                    opts = {'resave': rs}
+                    if ci['layout'] != 'mgh' and rng.random() < 0.3:
+                        opts['hdr_src'] = rng.choice(HDR_SRCS)
+                    out.append(mk_rt(cls, endian, o, None, shape, o, 'C', vals, 'filename', comp, 'resave', opts=opts))
+    return out
+
+
+LONG_QUICK = [
+    # (class, shape, in, out, endian, route, comp, layout)
+    ('Nifti1Image', (163842, 1, 1), 'i2', 'i2', '<', 'bytes', '', 'C'),          # FreeSurfer ico7 overlay
+    ('Nifti1Pair', (131072, 1, 1), 'i4', 'i2', '>', 'file_map', '', 'F'),
+    ('Nifti2Image', (200000,), 'f4', 'f4', '<', 'file_map', '', 'C'),
+    ('Nifti2Pair', (1, 131072, 1), 'u1', 'u1', '>', 'filename', '.gz', 'C'),
+    ('MGHImage', (163842, 1, 1), 'f4', 'f4', '>', 'filename', '', 'C'),
+    ('MGHImage', (1, 1, 1, 70000), 'i2', 'i2', '>', 'bytes', '', 'F'),
+    ('Nifti2Image', (1, 1, 1, 196608), 'u1', 'i2', '<', 'stream', '', 'C'),
+    ('Nifti2Image', (70000, 2), 'i2', 'i2', '>', 'bytes', '', 'C'),
+    ('Nifti2Pair', (2, 1, 70000), 'i2', 'i4', '<', 'file_map', '', 'perm:C:2.1.0'),
+]
+
+
+def lcg_spec(rng, in_name, out_name):
+    kind, cw, k = comp_layout(in_name)
+    if kind in 'iu':
+        lo, hi = int_extremes(in_name)
+        if comp_layout(out_name)[0] in 'iu':
+            lo2, hi2 = int_extremes(out_name)
+            lo, hi = max(lo, lo2), min(hi, hi2)
+        m = min(hi - lo + 1, 1 << 31)
+        return {'lcg': [2 * rng.randrange(1000, 40000) + 1, rng.randrange(1000), m, lo]}
+    src = {'f16': 'f8', 'c32': 'f8', 'c8': 'f4', 'c16': 'f8'}.get(in_name, in_name)
+    bits = 8 * (1 if kind == 'V' else np.dtype(src).itemsize)
+    return {'lcg': [2 * rng.randrange(10 ** 6, 10 ** 8) + 1, rng.randrange(1000), 1 << min(bits, 62), 0]}
+
+
+def long_stream(rng, tier):
+    """LONG axes (> 2**16 elements along one axis; effectively 1-D data as surface overlays have, and 2-D): the
+    per-slab loop of _write_data and the shape fields of the headers see sizes the small cases never reach"""
+    out = []
+    info = class_info()
+    todo = list(LONG_QUICK)
+    nrand = {'quick': 2, 'thorough': 24, 'search': 1}[tier]
+    for _ in range(nrand):
+        cls = rng.choice(['Nifti1Image', 'Nifti1Pair', 'Nifti2Image', 'Nifti2Pair', 'MGHImage'])
+        ci = info[cls]
+        n = rng.choice([rng.randrange(65537, 140000), 2 * rng.randrange(32769, 70000), 3 * rng.randrange(21846, 45000),
+                        65536 * 2, 65536 * 3, 65537, 200000, 163842])
+        if cls.startswith('Nifti1'):
+            shape = (n, 1, 1) + rng.choice([(), (), (1,)])           # the only long shape an int16 `dim` can hold
+        elif cls == 'MGHImage':
+            shape = rng.choice([(n, 1, 1), (1, n, 1), (1, 1, n), (1, 1, 1, n), (n,), (n, 1)])
+        else:
+            shape = rng.choice([(n, 1, 1), (1, n, 1), (n,), (1, 1, 1, n), (n, 1), (1, n), (1, 1, n, 1, 1),
+                                (n // 2, 2), (2, n // 2), (1, n // 2, 1, 2)])
+        in_name = rng.choice(['i2', 'u1', 'i4', 'f4', 'f8', 'c8', 'i8', 'u2'])
+        outs = out_choices(ci['dtypes'], in_name)
+        o = in_name if (in_name in outs and rng.random() < 0.6) else rng.choice(
+            [t for t in outs if comp_layout(t)[0] in 'iu' or comp_layout(in_name)[0] not in 'iu' or True])
+        if comp_layout(in_name)[0] in 'fc' and comp_layout(o)[0] in 'iu':
+            o = in_name if in_name in outs else 'f4'
+        route, comp = rng.choice([c for c in cells() if c[0] == cls])[1:]
+        endian = '>' if ci['big_only'] else rng.choice('<>')
+        layout = rng.choice(['C', 'F', 'C+swap', 'strided', 'neg'])
+        todo.append((cls, shape, in_name, o, endian, route, comp, layout))
+    if tier == 'thorough':
+        for cls in ('Nifti1Image', 'Nifti2Image', 'Nifti2Pair', 'MGHImage'):
+            for n in (131072, 163842, 196608, 200000):
+                for dt in ('u1', 'i2', 'f4'):
+                    if dt in info[cls]['dtypes']:
+                        todo.append((cls, (n, 1, 1), dt, dt, '>' if cls == 'MGHImage' else rng.choice('<>'),
+                                     rng.choice(['file_map', 'filename']), '', 'C'))
+    for cls, shape, in_name, o, endian, route, comp, layout in todo:
+        if o not in info[cls]['dtypes']:
+            continue
+        out.append(mk_rt(cls, endian, o, None, shape, in_name, layout, lcg_spec(rng, in_name, o), route, comp, 'long'))
+    return out
+
+
 def cells():
     out = []
     info = class_info()
@@ -1120,6 +1559,9 @@ def cases(rng, tier):
             out.append(gen_rt(rng, cls, route, comp))
     out.extend(perm_stream(rng, tier))
     out.extend(history_stream(rng, tier))
+    out.extend(dtypearg_stream(rng, tier))
+    out.extend(resave_stream(rng, tier))
+    out.extend(long_stream(rng, tier))
     # ---- the MGH single-frame 4-D class (known finding) and its neighbours
     for shape in [(1, 1, 1, 1), (2, 3, 2, 1), (2, 1, 1, 1), (2, 3, 2, 2), (1, 1, 1, 2), (2, 3, 1), (1, 1, 1), (3,), (2, 2)]:
         n = int(np.prod(shape))
